@@ -279,7 +279,10 @@ def _splice_await(host, call_bb, ctor, cor, tymap):
         for s_ in b_['stmts']:
             if s_['k'] == 'assign' and s_['rv']['k'] == 'agg' and s_['rv'].get('ak') == 'coroutine' and s_['rv'].get('def') == cor['name'] and not s_['pl']['p'] and s_['pl']['l'] == 0:
                 agg = s_['rv']
-    if agg is None or len([b_ for b_ in ctor['blocks'] if not b_['cleanup']]) != 1:
+    # the constructor does nothing else (built MIR keeps no-op drops of the parameters that were moved into the coroutine)
+    if agg is None or any(b_['term'] is None or b_['term']['k'] not in ('return', 'drop', 'goto') for b_ in ctor['blocks'] if not b_['cleanup']):
+        return False
+    if sum(1 for b_ in ctor['blocks'] if not b_['cleanup'] for s_ in b_['stmts'] if s_['k'] == 'assign') != 1:
         return False
     feeds = []
     for o in agg.get('ops', []):
